@@ -106,7 +106,10 @@ theorem saveString_none {d d' : Doc} {s : List Byte} (hp : PL.Inv d.g d.pl) (h :
   simp only [Doc.saveString] at h
   split at h
   · simp only [Prod.mk.injEq] at h; exact absurd h.1 (by simp)
-  · generalize hal : d.pl.alloc (s.length + d.strOverhead) = q at h
+  · split at h
+    · simp only [Prod.mk.injEq, true_and] at h; subst h
+      exact ⟨⟨rfl, rfl, rfl, rfl, fun _ _ => rfl, hp, fun x hx => hx⟩, rfl, fun x => Iff.rfl⟩
+    generalize hal : d.pl.alloc (s.length + d.strOverhead) = q at h
     obtain ⟨ok, pl⟩ := q
     simp only at h
     have hpl : pl = (d.pl.alloc (s.length + d.strOverhead)).2 := by rw [hal]
@@ -123,7 +126,9 @@ theorem saveString_overflowed {d d1 : Doc} {s : List Byte} {n : Nat} (h : d.save
   simp only [Doc.saveString] at h
   split at h
   · simp only [Prod.mk.injEq, Option.some.injEq] at h; obtain ⟨_, rfl⟩ := h; rfl
-  · generalize d.pl.alloc (s.length + d.strOverhead) = q at h
+  · split at h
+    · simp only [Prod.mk.injEq] at h; exact absurd h.1 (by simp)
+    generalize d.pl.alloc (s.length + d.strOverhead) = q at h
     obtain ⟨ok, pl⟩ := q
     simp only at h
     split at h
@@ -179,7 +184,9 @@ theorem saveString_g (d : Doc) (s : List Byte) : (d.saveString s).2.g = d.g := b
   simp only [Doc.saveString]
   split
   · rfl
-  · generalize d.pl.alloc (s.length + d.strOverhead) = q
+  · split
+    · rfl
+    generalize d.pl.alloc (s.length + d.strOverhead) = q
     obtain ⟨ok, pl⟩ := q
     simp only
     split <;> rfl
